@@ -1,7 +1,7 @@
 (* C03, part 3: the style phase of ONE element, key by key.  For every property p the passes before the ordered
    computation (animation, specified, direction, inheritance, initial values) leave in the style map the value
    `pre_value` and schedule p for computation exactly when `pre_todo` says; the ordered computation is a chain of
-   eleven steps, each of which touches its own key only (tts:position also rewrites tts:origin). *)
+   twelve steps, each of which touches its own key only (tts:position also rewrites tts:origin). *)
 From TT Require Import Model.Doc Gen.StyleTables Model.Isd Spec.IsdSpec Spec.StyleSpec.
 From TT Require Import Proofs.Common.StyleFrame Proofs.C01.Display Proofs.C13.Shape Proofs.C13.Styles.
 From TT Require Import Proofs.C03.Values Proofs.C03.Cascade Proofs.C03.Chain Proofs.C03.FontSize.
